@@ -1,4 +1,5 @@
 use std::collections::HashMap;
+use std::convert::TryFrom;
 
 use itertools::Itertools;
 
@@ -259,18 +260,33 @@ impl ColumnParsing {
                             let value = ColumnParsing::extract_using_regex(&ValueType::Int, parsing_input, pattern, Value::Null);
 
                             if let Value::Int(value_i64) = value {
+                                // A part that does not fit its field is not a valid date part (it must not wrap around)
+                                let part = match u32::try_from(value_i64) {
+                                    Ok(part) => part,
+                                    Err(_) if index == 0 => 0,
+                                    Err(_) => { return column.default_value(); }
+                                };
+
                                 match index {
-                                    0 => { year = value_i64 as i32 },
-                                    1 => { month = value_i64 as u32 },
-                                    2 => { day = value_i64 as u32 },
-                                    3 => { hour = value_i64 as u32 },
-                                    4 => { minute = value_i64 as u32 },
-                                    5 => { second = value_i64 as u32 }
+                                    0 => {
+                                        year = match i32::try_from(value_i64) {
+                                            Ok(year) => year,
+                                            Err(_) => { return column.default_value(); }
+                                        };
+                                    },
+                                    1 => { month = part },
+                                    2 => { day = part },
+                                    3 => { hour = part },
+                                    4 => { minute = part },
+                                    5 => { second = part }
                                     6 => {
                                         if column.options.microseconds {
-                                            microsecond = value_i64 as u32;
+                                            microsecond = part;
                                         } else {
-                                            microsecond = value_i64 as u32 * 1000;
+                                            microsecond = match part.checked_mul(1000) {
+                                                Some(microsecond) => microsecond,
+                                                None => { return column.default_value(); }
+                                            };
                                         }
                                     }
                                     _ => {}
